@@ -14,41 +14,70 @@ CONTRACTS = {
     ),
 }
 
-# NOT LOADED (work in progress): 68 of 72 obligations discharge; the four open ones are the dictionary-shape invariant on the
-# KeyError path of the inner loop (quantified key-set axioms time out).  Nothing is claimed from it.
-PENDING = {
+GHOSTS = {"gk": "str", "gr": "str"}
+
+T = "tempConfiguration"
+D = "dConfiguration"
+# the shape two configuration files have after YAML / JSON loading: the rule sections are dictionaries, and the two files share
+# nothing (they were loaded separately)
+SHAPE = [
+    "%s is not %s" % (D, T),
+    "'file_list' not in %s" % T,
+    "implies('rule' in %s, isinstance(%s['rule'], dict) and %s['rule'] is not %s and %s['rule'] is not %s)" % (T, T, T, D, T, T),
+    "implies('rule' in %s, isinstance(%s['rule'], dict) and %s['rule'] is not %s and %s['rule'] is not %s and implies('rule' in %s, %s['rule'] is not %s['rule']))" % (D, D, D, T, D, D, T, D, T),
+]
+RSHAPE = "implies('rule' in dReturn, isinstance(dReturn['rule'], dict) and dReturn['rule'] is not %s and dReturn['rule'] is not dReturn and implies('rule' in %s, dReturn['rule'] is not %s['rule']))" % (T, T, T)
+TSAME = "keys(%s) == old(keys(%s)) and implies('rule' in %s, %s['rule'] is old(%s['rule']) and keys(%s['rule']) == old(keys(%s['rule'])))" % (T, T, T, T, T, T, T)
+
+CONTRACTS.update({
+    # C12: later configuration files override earlier ones, section by section, and rule by rule inside the rule section.
+    # gk is any top-level key, gr any key of the rule section (ghost constants nobody modifies: the clauses hold for all of them)
     "vsg.config.process_config_file": dict(
         types={"dConfiguration": "obj:builtins.dict", "tempConfiguration": "obj:builtins.dict", "sConfigFilename": "str"},
-        requires=[
-            "dConfiguration is not tempConfiguration",
-            "'file_list' not in tempConfiguration",
-            # the shape a YAML/JSON configuration has: the rule section is a dictionary, and the two files do not share it
-            "implies('rule' in tempConfiguration, isinstance(tempConfiguration['rule'], dict) and tempConfiguration['rule'] is not dConfiguration and tempConfiguration['rule'] is not tempConfiguration)",
-            "implies('rule' in dConfiguration, isinstance(dConfiguration['rule'], dict) and dConfiguration['rule'] is not tempConfiguration and dConfiguration['rule'] is not dConfiguration and implies('rule' in tempConfiguration, dConfiguration['rule'] is not tempConfiguration['rule']))",
-        ],
+        requires=SHAPE + ["gk != 'rule'"],
         returns="obj:builtins.dict",
         modifies=["heap:dict.__keys__", "heap:dict.__vals__"],
         ensures=[
-            "result is dConfiguration",
-            # every section of the later file other than 'rule' replaces the earlier one
-            "forall(lambda j: implies(keys(tempConfiguration)[j] != 'rule', keys(tempConfiguration)[j] in result and result[keys(tempConfiguration)[j]] is tempConfiguration[keys(tempConfiguration)[j]]), 0, len(keys(tempConfiguration)))",
+            "result is %s" % D,
+            # a section of the later file replaces the earlier file's section of that name; the others stay
+            "implies(gk in %s, gk in result and result[gk] is %s[gk])" % (T, T),
+            "implies(not (gk in %s), (gk in result) == old(gk in %s) and implies(gk in result, result[gk] is old(%s[gk])))" % (T, D, D),
+            # inside the rule section: a rule (or 'global' / 'group') the later file configures is taken from it, the others stay
+            "implies('rule' in %s and gr in %s['rule'], 'rule' in result and gr in result['rule'] and result['rule'][gr] is %s['rule'][gr])" % (T, T, T),
+            "implies('rule' in %s and not (gr in %s['rule']) and old('rule' in %s) and old(gr in %s['rule']), 'rule' in result and gr in result['rule'] and result['rule'][gr] is old(%s['rule'][gr]))" % (T, T, D, D, D),
+            "implies(not ('rule' in %s) and old('rule' in %s), 'rule' in result and result['rule'] is old(%s['rule']))" % (T, D, D),
             # the later file itself is not changed
-            "forall(lambda j: tempConfiguration[keys(tempConfiguration)[j]] is old(tempConfiguration[keys(tempConfiguration)[j]]), 0, len(keys(tempConfiguration)))",
+            TSAME,
+            "implies('rule' in %s, forall(lambda j: %s['rule'][keys(%s['rule'])[j]] is old(%s['rule'][keys(%s['rule'])[j]]), 0, len(keys(%s['rule']))))" % (T, T, T, T, T, T),
         ],
         loops={
             1: dict(
                 invariant=[
-                    "dReturn is dConfiguration",
-                    "forall(lambda j: implies(keys(tempConfiguration)[j] != 'rule', keys(tempConfiguration)[j] in dReturn and dReturn[keys(tempConfiguration)[j]] is tempConfiguration[keys(tempConfiguration)[j]]), 0, _i)",
-                    "forall(lambda j: tempConfiguration[keys(tempConfiguration)[j]] is old(tempConfiguration[keys(tempConfiguration)[j]]), 0, len(keys(tempConfiguration)))",
-                    "keys(tempConfiguration) == old(keys(tempConfiguration))",
-                    "implies('rule' in dReturn, isinstance(dReturn['rule'], dict) and dReturn['rule'] is not tempConfiguration and implies('rule' in tempConfiguration, dReturn['rule'] is not tempConfiguration['rule']))",
+                    "dReturn is %s" % D,
+                    RSHAPE,
+                    TSAME,
+                    "implies(gk in keys(%s)[:_i], gk in dReturn and dReturn[gk] is %s[gk])" % (T, T),
+                    "implies(not (gk in keys(%s)[:_i]), (gk in dReturn) == old(gk in %s) and implies(gk in dReturn, dReturn[gk] is old(%s[gk])))" % (T, D, D),
+                    "implies('rule' in keys(%s)[:_i] and gr in %s['rule'], 'rule' in dReturn and gr in dReturn['rule'] and dReturn['rule'][gr] is %s['rule'][gr])" % (T, T, T),
+                    "implies('rule' in keys(%s)[:_i] and not (gr in %s['rule']) and old('rule' in %s) and old(gr in %s['rule']), 'rule' in dReturn and gr in dReturn['rule'] and dReturn['rule'][gr] is old(%s['rule'][gr]))" % (T, T, D, D, D),
+                    "implies(not ('rule' in keys(%s)[:_i]), ('rule' in dReturn) == old('rule' in %s) and implies('rule' in dReturn, dReturn['rule'] is old(%s['rule']) and keys(dReturn['rule']) == old(keys(%s['rule'])) and implies(gr in dReturn['rule'], dReturn['rule'][gr] is old(%s['rule'][gr]))))" % (T, D, D, D, D),
+                    "implies('rule' in %s, forall(lambda j: %s['rule'][keys(%s['rule'])[j]] is old(%s['rule'][keys(%s['rule'])[j]]), 0, len(keys(%s['rule']))))" % (T, T, T, T, T, T),
                 ]
             ),
-            2: dict(invariant=["dReturn is dConfiguration", "implies('rule' in dReturn, isinstance(dReturn['rule'], dict) and dReturn['rule'] is not tempConfiguration and implies('rule' in tempConfiguration, dReturn['rule'] is not tempConfiguration['rule']))"]),
+            2: dict(
+                invariant=[
+                    "dReturn is %s" % D,
+                    RSHAPE,
+                    TSAME,
+                    "(gk in dReturn) == entry(gk in dReturn) and implies(gk in dReturn, dReturn[gk] is entry(dReturn[gk]))",
+                    "implies(gr in keys(%s['rule'])[:_i], 'rule' in dReturn and gr in dReturn['rule'] and dReturn['rule'][gr] is %s['rule'][gr])" % (T, T),
+                    "implies(not (gr in keys(%s['rule'])[:_i]) and entry('rule' in dReturn) and entry(gr in dReturn['rule']), 'rule' in dReturn and gr in dReturn['rule'] and dReturn['rule'][gr] is entry(dReturn['rule'][gr]))" % T,
+                    "implies('rule' in %s, forall(lambda j: %s['rule'][keys(%s['rule'])[j]] is old(%s['rule'][keys(%s['rule'])[j]]), 0, len(keys(%s['rule']))))" % (T, T, T, T, T, T),
+                ]
+            ),
         },
     ),
-}
+})
 
 
 def install(engine):
